@@ -119,12 +119,16 @@ package consensus
 // what is encoded is this block's own header, not a copy that was changed on the way
 //@   at call *.EncodeBinary: assert [C19] @ownHeader recv.ConsensusData == b.base.ConsensusData && recv.Index == b.base.Index && recv.Timestamp == b.base.Timestamp && recv.Version == b.base.Version && recv.MerkleRoot == b.base.MerkleRoot && recv.PrevHash == b.base.PrevHash && recv.NextConsensus == b.base.NextConsensus
 //@   ensures [C19] @headerOnly gEncoded == old(gEncoded) + 1
+// the bytes handed out are this call's own: no other payload's or block's encoding can later change them
+//@   ensures [C19] @ownBytes fresh(result)
 //@ func (*amevBlock).GetHashData
 //@   loops 0
 //@   modifies gEncoded
 // what is encoded is this block's own header, not a copy that was changed on the way
 //@   at call *.EncodeBinary: assert [C19] @ownHeader recv.ConsensusData == b.base.ConsensusData && recv.Index == b.base.Index && recv.Timestamp == b.base.Timestamp && recv.Version == b.base.Version && recv.MerkleRoot == b.base.MerkleRoot && recv.PrevHash == b.base.PrevHash && recv.NextConsensus == b.base.NextConsensus
 //@   ensures [C19] @headerOnly gEncoded == old(gEncoded) + 1
+// the bytes handed out are this call's own: no other payload's or block's encoding can later change them
+//@   ensures [C19] @ownBytes fresh(result)
 
 // ---- envelope: message type, view, and the payload header ----
 
@@ -203,6 +207,8 @@ package consensus
 //@   modifies gEncoded, gMarshals, gPayloadEncodes
 //@   ghost gMarshals = gMarshals + 1
 //@   ensures [C19] @wholePayload gMarshals == old(gMarshals) + 1 && gPayloadEncodes == old(gPayloadEncodes) + 1
+// the bytes handed out are this call's own: no other payload's or block's encoding can later change them
+//@   ensures [C19] @ownBytes fresh(result)
 //@   requires p.message.payload != nil
 
 // ---- recovery message: what it gives back for a proposal or a response carries the fields of the original ----
